@@ -267,16 +267,26 @@ def register(R):
     m, key = a[0], it.to_obj(a[1])
     return VInt(z3.If(z3.Select(m.has, key), z3.Select(m.val, key), z3.IntVal(0)))
 
+  @R.spec
+  def size_of(it, a, k):        # number of distinct keys of a counter
+    return VInt(a[0].size)
+
   TX = 'ml_metrics/_src/aggregates/text.py'
   ADDS = lambda s, o: [f"forall(lambda g: count_of({s}.counter, g) == old(count_of({s}.counter, g)) + count_of({o}.counter, g), 'obj')",
                        f'{s}.count == old({s}.count) + {o}.count',
-                       f"forall(lambda g: count_of({o}.counter, g) == old(count_of({o}.counter, g)), 'obj')", f'{o}.count == old({o}.count)']
+                       f"forall(lambda g: count_of({o}.counter, g) == old(count_of({o}.counter, g)), 'obj')", f'{o}.count == old({o}.count)',
+                       # distinct keys: at least those of the larger side, at most those of both
+                       f'size_of({s}.counter) >= old(size_of({s}.counter)) and size_of({s}.counter) >= size_of({o}.counter)'
+                       f' and size_of({s}.counter) <= old(size_of({s}.counter)) + size_of({o}.counter)']
   R.add(Contract(f'{AU}::FrequencyState.merge', PROPS, types=dict(self='FrequencyState', other='FrequencyState'),
                  modifies=['self.counter', 'self.count'], ensures=ADDS('self', 'other'), bounded='bounded_algebra',
                  note='A2: collections.Counter.update adds key by key'))
   for cls in ('TopKWordNGrams', 'PatternFrequency'):
     R.add(Contract(f'{TX}::{cls}.merge', PROPS, types=dict(self=cls, other=cls),
+                   requires=['self.k > 0 and other.k == self.k'] if cls == 'TopKWordNGrams' else [],      # __post_init__ rejects k <= 0
                    modifies=['self._state.counter', 'self._state.count'], ensures=ADDS('self._state', 'other._state'), bounded='bounded_algebra',
+                   replay='replay_frequency_merge' if cls == 'TopKWordNGrams' else None,
+                   witness=dict(k='self.k', distinct_self='size_of(self._state.counter)', distinct_other='size_of(other._state.counter)') if cls == 'TopKWordNGrams' else {},
                    note='the merged state keeps the count of EVERY n-gram / pattern (no pruning to the current top k)'))
 
   R.cls('Counter', dict(_counter='counter[obj]'))
